@@ -9,9 +9,9 @@ python3 tools/gen.py tp && touch .build/tp/.stamp
 [ "${1:-}" = "tp" ] && exit 0
 python3 tools/gen.py overlay --repo /repo
 # warm the build cache (first build ~60 s)
-(cd /repo && go1.26.8 test -c -tags verif -vet=off -modfile "$VERIF_DIR/.build/alt.mod" \
+(cd /repo && go1.26.8 test -c -trimpath -tags verif -vet=off -modfile "$VERIF_DIR/.build/alt.mod" \
    -overlay "$VERIF_DIR/.build/overlay.json" -o "$VERIF_DIR/.build/bin/chfmc.warm.test" ./internal/zzverif)
-(cd /repo && go1.26.8 test -c -race -tags verif -vet=off -modfile "$VERIF_DIR/.build/alt.mod" \
+(cd /repo && go1.26.8 test -c -race -trimpath -tags verif -vet=off -modfile "$VERIF_DIR/.build/alt.mod" \
    -overlay "$VERIF_DIR/.build/overlay.json" -o "$VERIF_DIR/.build/bin/chfmc.warm.test" ./internal/zzverif)
 rm -f .build/bin/chfmc.warm.test
 echo "setup done"
